@@ -233,7 +233,54 @@ def run(ctx):
         w = [ev for _, ev in fn.all_events() if ev["e"] == "asg"]
         ctx.ob("C19.R5b", L.short(fn)[:100], len(w) == 1 and const_val(w[0].get("rhs")) == 0 and strip_cast(w[0]["lhs"]).get("k") == "p",
                fn.loc, "adder reset must zero every slot")
-    ctx.floor("C19.R5", n5, 3, "adder count/reset")
+    # R5c/R5d summer: one sample adds (value, 1); the pair update is <own slot> = <own slot> + <argument>, written back to the own slot
+    for fn in fb.find(pred=lambda f: f.record == "babylon::ConcurrentSummer" and f.name == "operator<<" and f.has_cfg()):
+        ig = IG(fn, inline=nin)
+        live = ig.live_nodes()
+        if "Summary" not in (fn.params[0].get("type") or ""):
+            n5 += 1
+            fw = [n for n in L.call_nodes(ig, name="operator<<", live=live)]
+            ok = len(fw) == 1
+            if ok:
+                a0 = strip_cast(ig.rarg(fw[0], 0))
+                xs = a0.get("xs") if isinstance(a0, dict) else None
+                ok = isinstance(xs, list) and len(xs) == 2 and strip_cast(xs[0]).get("k") == "p" and const_val(xs[1]) == 1
+            ctx.ob("C19.R5c", L.short(fn) + fn.sig, ok, fn.loc, "one sample must contribute (value, 1) to (sum, count)", site="summer@one-sample")
+            continue
+        n5 += 1
+        loc = list(L.call_nodes(ig, name="local", live=live))
+        loads = [n for n in ig.ev_nodes() if n.id in live and n.ev["e"] == "call" and re.match(r"^(_mm_load_si128|vld1q_s64)$", n.ev.get("name", "") or "")]
+        adds = [n for n in ig.ev_nodes() if n.id in live and n.ev["e"] == "call" and re.match(r"^(_mm_add_epi64|vaddq_s64)$", n.ev.get("name", "") or "")]
+        stores = [n for n in ig.ev_nodes() if n.id in live and n.ev["e"] == "call" and re.match(r"^(_mm_store_si128|vst1q_s64)$", n.ev.get("name", "") or "")]
+
+        def own(d):
+            return bool(loc) and any(ig.ev_of(o) is loc[0] for sd in walk(strip_cast(ig.resolve(d, ig.frames[0]))) if isinstance(sd, dict) and sd.get("k") == "l"
+                                     for o in ig.origins(sd))
+
+        def arg_(d):
+            return any(isinstance(sd, dict) and sd.get("k") == "p" for sd in walk(strip_cast(ig.resolve(d, ig.frames[0]))))
+        ok = len(loc) == 1 and len(loads) == 2 and len(adds) == 1 and len(stores) == 1
+        if ok:
+            l_own = [n for n in loads if own(n.ev["args"][0])]
+            l_arg = [n for n in loads if arg_(n.ev["args"][0]) and not own(n.ev["args"][0])]
+            ok = len(l_own) == 1 and len(l_arg) == 1
+            if ok:
+                srcs = set()
+                for a in adds[0].ev["args"]:
+                    for o in ig.origins_at(strip_cast(ig.resolve(a, adds[0].frame)), adds[0]):
+                        n_ = ig.ev_of(strip_cast(o))
+                        if n_ is not None:
+                            srcs.add(n_.id)
+                ok = srcs == set([l_own[0].id, l_arg[0].id])
+                st_args = stores[0].ev["args"]
+                own_i = [i for i, a in enumerate(st_args) if own(a)]
+                val_i = [i for i, a in enumerate(st_args) if any(ig.ev_of(strip_cast(o)) is adds[0] for o in ig.origins_at(strip_cast(ig.resolve(a, stores[0].frame)), stores[0]))]
+                ok = ok and len(own_i) == 1 and len(val_i) == 1 and ig.dominated_by(stores[0], adds) and \
+                    all(ig.postdominated_by(ig.entry, stores) for _ in [0])
+        ctx.ob("C19.R5d", L.short(fn) + fn.sig[:40], ok, fn.loc,
+               "the (sum, count) pair of this thread must be updated as one 128-bit <own slot> = <own slot> + <argument>: any other "
+               "data flow loses or double-counts contributions", site="summer@pair-update")
+    ctx.floor("C19.R5", n5, 5, "adder count/reset, summer updates")
 
     # ---------------------------------------------------------------- R6 special members
     n6 = L.check_special_members(ctx, "C19.R6", fb, r"^babylon::(Compact)?EnumerableThreadLocal<.*>$")
